@@ -181,11 +181,11 @@ func oneSlice(s *algo.CircularSlice[int]) map[string]any {
 	s1, s2 := s.Slices()
 	return map[string]any{
 		"el": el, "rp": rp, "wp": wp, "len": s.Len(), "cap": s.Cap(),
-		"front":  orPanic(s.Front),
-		"idx":    idx,
-		"idxneg": orPanic(func() int { return s.Index(-1) }),
+		"front":      orPanic(s.Front),
+		"idx":        idx,
+		"idxneg":     orPanic(func() int { return s.Index(-1) }),
 		"ref_agrees": refOK,
-		"s1":     append([]int{}, s1...), "s2": append([]int{}, s2...),
+		"s1":         append([]int{}, s1...), "s2": append([]int{}, s2...),
 		"poppanic": popPanics,
 	}
 }
